@@ -2,7 +2,11 @@
 """Regenerates /verif/MANIFEST.json from tools/claims.json (one entry per claimed property)."""
 import json, os
 V = os.path.dirname(os.path.dirname(os.path.abspath(__file__)))
-claims = json.load(open(os.path.join(V, "tools", "claims.json")))
+claims = {}
+cdir = os.path.join(V, "tools", "claims")
+for f in sorted(os.listdir(cdir)):
+    if f.endswith(".json"):
+        claims[f[:-5]] = json.load(open(os.path.join(cdir, f)))
 props = [json.loads(l) for l in open(os.path.join(V, "properties.jsonl"))]
 checks, na = [], []
 for p in props:
